@@ -32,7 +32,7 @@ case "$ID:$MODE" in
         CARGO_TARGET_DIR="$VERIF_DIR/target-rel" build verifrel
         export VERIF_REL_BIN="$VERIF_DIR/target-rel/verifrel/verif-harness"
         ;;
-    C05:thorough|C07:thorough)
+    C05:quick|C05:thorough|C07:thorough)
         CARGO_TARGET_DIR="$VERIF_DIR/target-bg" build verif --features background_rotation
         export VERIF_BG_BIN="$VERIF_DIR/target-bg/verif/verif-harness"
         ;;
